@@ -2,6 +2,8 @@ import G3D.Proofs.Xf
 import G3D.Proofs.Xf2
 import G3D.Proofs.XfAll
 import G3D.Props.C04
+import G3D.Proofs.XCBody
+import G3D.Proofs.XCFlat
 /-! # C13 — queries commute with lattice isometries and uniform scaling  (partial only for intersection results of polygons / polyhedra)
     `SP` = the 48 signed axis permutations, `Xf` = signed permutation ∘ scaling by k > 0 ∘ translation. -/
 namespace G3D.Props.C13
@@ -81,4 +83,56 @@ theorem intersection_equivariant_admissible (T : Xf) (hk : 0 < T.k) (a b : Obj) 
     ∃ o o', inter a b = .ok o ∧ inter (T.obj a) (T.obj b) = .ok o' ∧ ResOK o ∧ ResOK o' ∧
       ∀ x, denOptB o' (T.pt x) ↔ denOptB o x := by
   rw [Props.C04.inter_eq_ref, Props.C04.inter_eq_ref]; exact interRef_xf T hk a b ha hb ha' hb' hnb
+
+/-! ### the CONSTRUCTORS commute with the transformations -/
+/-- **ConvexPolygon**: for every symmetry / translation / scaling k > 0, every input list and either `reverse` flag, the
+    constructor on the transformed points returns EXACTLY the transformed record (same vertex order; normal × det·k²), and
+    raises the same exception when it raises — no hypothesis on the input at all -/
+theorem polygon_constructor_commutes (T : Xf) (hk : 0 < T.k) (i : List V3) (rev : Bool) :
+    Polygon.mk? (T.pts i) rev = (Polygon.mk? i rev).map (XC.img T) := XC.mk?_xf T hk i rev
+
+/-- … and what that record means: Valid, same membership, same hull, area × k², edge lengths × k -/
+theorem polygon_constructor_commutes_queries (T : Xf) (hk : 0 < T.k) (i : List V3) (rev : Bool) (P : Polygon)
+    (hx : StrictConvexPos (dedupV i)) (h : Polygon.mk? i rev = .ok P) :
+    ∃ P', Polygon.mk? (T.pts i) rev = .ok P' ∧ P.Valid ∧ P'.Valid ∧
+      P'.pts = T.pts P.pts ∧ (∀ p, p ∈ P'.pts ↔ p ∈ T.pts P.pts) ∧
+      P'.center = T.pt P.center ∧ P'.plane.p = T.pt P.plane.p ∧
+      P'.plane.n = smul (T.k^2) (T.pnrm P.plane.n) ∧ P'.same (T.polygon P) = true ∧
+      (∀ x, InHull P'.pts (T.pt x) ↔ InHull P.pts x) ∧ (∀ x, P'.contains (T.pt x) = P.contains x) ∧
+      P'.areaSq = T.k^4 * P.areaSq ∧ P'.edgeLenSqs = P.edgeLenSqs.map (T.k^2 * ·) :=
+  XC.polygon_ctor_xf T hk i rev P hx h
+
+/-- **ConvexPolyhedron** (relative to a Valid reference body whose faces are the input, in any order / orientation): the
+    constructor on transformed faces succeeds iff it does on the original ones (Euler's number is invariant), and the stored
+    bodies correspond: membership, hull, vertex set, centre, counts, edge lengths × k, face areas × k², volume × k³, and
+    equality with the transformed body -/
+theorem polyhedron_constructor_commutes (T : Xf) (hk : 0 < T.k) (B0 : Polyhedron) (hV : B0.Valid)
+    (F input input' : List Polygon) (hperm : List.Perm F B0.faces) (hrel : List.Forall₂ Reoriented F input)
+    (himg : List.Forall₂ (XC.ImgOf T) input input') :
+    ((∃ B', Polyhedron.mk? input' = .ok B') ↔ (∃ B, Polyhedron.mk? input = .ok B)) ∧
+    ∀ B B', Polyhedron.mk? input = .ok B → Polyhedron.mk? input' = .ok B' →
+      B.Valid ∧ B'.Valid ∧
+      (∀ x, B'.contains (T.pt x) = B.contains x) ∧
+      (∀ x, InHull B'.verts (T.pt x) ↔ InHull B.verts x) ∧
+      (∀ x, B'.contains (T.pt x) = true ↔ InHull B.verts x) ∧
+      List.Perm B'.verts (T.pts B.verts) ∧ B'.center = T.pt B.center ∧
+      B'.faces.length = B.faces.length ∧ B'.edges.length = B.edges.length ∧
+      List.Perm B'.edgeLenSqs (B.edgeLenSqs.map (T.k^2 * ·)) ∧
+      ((∀ g ∈ input, g.CentreInside) → (∀ g' ∈ input', g'.CentreInside) →
+        B'.volume = T.k^3 * B.volume ∧
+        List.Perm (B'.faces.map Polygon.areaSq) ((B.faces.map Polygon.areaSq).map (T.k^4 * ·))) ∧
+      (B0.FaceLocal → B'.sameB (T.body B) = true) :=
+  XC.polyhedron_ctor_xf T hk B0 hV F input input' hperm hrel himg
+
+/-- the transformed reference body is again a Valid reference body -/
+theorem body_symmetry_valid (T : Xf) (hk : 0 < T.k) (B : Polyhedron) (hV : B.Valid) : (T.body B).Valid :=
+  XC.body_valid T hk B hV
+
+/-- flat constructors: Line / Segment / HalfLine / Plane(point, normal) commute exactly (same exception when they raise) -/
+theorem flat_constructors_commute (T : Xf) (hk : 0 < T.k) (p q v : V3) :
+    Line.mk? (T.pt p) (T.dir v) = (Line.mk? p v).map T.line ∧
+    Seg.mk? (T.pt p) (T.pt q) = (Seg.mk? p q).map T.seg ∧
+    HalfLine.ofVec? (T.pt p) (T.dir v) = (HalfLine.ofVec? p v).map T.halfline :=
+  ⟨XC.line_mk? T hk p v, XC.seg_mk? T hk p q, XC.halfline_ofVec? T hk p v⟩
+
 end G3D.Props.C13
